@@ -734,6 +734,12 @@ pub fn worker_c19(tier: &str) {
     let leaf_terms = grammar_terms(1, lv >= 2);
     let goals = grammar_leaf_goals(&leaf_terms);
     let rules = grammar_rules(lv);
+    // scale: one size parameter at a time (depth, number of arguments / elements / goals / clauses' variables)
+    let (mut terms, mut goals, mut rules) = (terms, goals, rules);
+    let (st, sg, sr) = scale_syntax(lv >= 2);
+    terms.extend(st);
+    goals.extend(sg);
+    rules.extend(sr);
     let mut idx = 0u64;
     let describe = w.describe;
     let mut e = Emit { w: &mut w, emitted: HashMap::new() };
@@ -796,7 +802,67 @@ pub fn worker_c19(tier: &str) {
             e.w.emit(json!({"t":"sample","v":{"rule": c.text()}}));
         }
     }
+    // a long parsing history in one thread: the parsers keep no state, so after hundreds of parses of
+    // every kind (infix arithmetic and comparisons included) the same texts must still give the same values
+    if describe.is_none() && e.w.mine(idx) {
+        e.w.begin(idx);
+        let probes: Vec<T> = leaf_terms.iter().take(24).cloned().collect();
+        for round in 0..(if lv >= 2 { 2000 } else { 400 }) {
+            for txt in ["$X + 1", "$Y = $X * 2.5", "$X <= 3", "f($X - 1, [a | $T])", "h($X) :- $Y = $X / 2, $Y >= 1.", "[1, 2 | $T]", "p(f(g(a)), \"q r\")"] {
+                let _ = catch_unwind(AssertUnwindSafe(|| suiron::parse_term(txt)));
+                let _ = catch_unwind(AssertUnwindSafe(|| suiron::parse_subgoal(txt)));
+                let _ = catch_unwind(AssertUnwindSafe(|| suiron::generate_goal(txt)));
+                let _ = catch_unwind(AssertUnwindSafe(|| suiron::parse_rule(txt)));
+            }
+            if round % 50 == 49 {
+                for t in &probes {
+                    c19_term(&mut e, t);
+                }
+                e.w.count("c19.history_probe_rounds", 1);
+                e.w.beat();
+            }
+        }
+    }
     w.done();
+}
+
+/// Scale inputs for C19: (terms, goals, rules), each parametric in one size.
+fn scale_syntax(thorough: bool) -> (Vec<T>, Vec<G>, Vec<Clause>) {
+    let mut sizes: Vec<usize> = vec![3, 4, 5, 7, 8, 9, 15, 16, 17, 20, 21, 31, 32, 33, 40, 41, 63, 64, 65];
+    if thorough {
+        sizes.extend([100, 101, 127, 128, 129, 255, 256, 257]);
+    }
+    let (mut ts, mut gs, mut rs) = (vec![], vec![], vec![]);
+    for &n in &sizes {
+        let deep = (0..n).fold(atom("a"), |t, _| cplx("f", vec![t]));
+        let deepv = (0..n).fold(x(), |t, _| cplx("g", vec![t, atom("b")]));
+        let deepl = (0..n).fold(atom("a"), |t, _| list(vec![t]));
+        let deepl2 = (0..n).fold(x(), |t, _| list(vec![atom("b"), t]));
+        let mixed = (0..n).fold(atom("a"), |t, i| if i % 2 == 0 { cplx("f", vec![t]) } else { list(vec![t, atom("c")]) });
+        let ints: Vec<T> = (1..=n as i64).map(T::Int).collect();
+        let vars: Vec<T> = (1..=n).map(|i| v(&format!("$V{}", i))).collect();
+        let long_atom = atom("ab ".repeat(n).trim());
+        ts.extend(vec![deep.clone(), deepv.clone(), deepl.clone(), deepl2.clone(), mixed.clone(), list(ints.clone()), list_t(vars.clone(), v("$T")), cplx("k", ints.clone()), cplx("k", vars.clone()), long_atom.clone(), v(&format!("${}", "X".repeat(n)))]);
+        // goals
+        for t in [deep.clone(), deepl.clone(), mixed.clone(), cplx("k", vars.clone()), list(ints.clone())] {
+            gs.push(call("p", vec![t.clone()]));
+            gs.push(G::Unify(x(), t.clone()));
+            gs.push(G::Not(Box::new(call("p", vec![t.clone()]))));
+            gs.push(G::Print(vec![t]));
+        }
+        gs.push(G::Unify(x(), func("add", ints.clone())));
+        gs.push(G::Bip("append".into(), { let mut a = ints.clone(); a.push(x()); a }));
+        gs.push(G::Print({ let mut a = vec![atom("%s ".repeat(n).trim())]; a.extend(ints.clone()); a }));
+        // rules: n goals in a conjunction / disjunction, n variables, deep terms in head and body
+        let conj: Vec<G> = (0..n).map(|i| call(&format!("q{}", i % 5), vec![v(&format!("$V{}", i % 7)), T::Int(i as i64)])).collect();
+        let disj: Vec<G> = (0..n).map(|i| G::Unify(x(), T::Int(i as i64))).collect();
+        rs.push(Clause { head: cplx("h", vec![x()]), body: Some(G::And(conj.clone())) });
+        rs.push(Clause { head: cplx("h", vec![x()]), body: Some(G::Or(disj)) });
+        rs.push(Clause { head: cplx("h", vars.clone()), body: Some(G::And(vec![call("p", vars.clone()), G::Unify(vars[0].clone(), vars[n - 1].clone())])) });
+        rs.push(Clause { head: cplx("h", vec![deep.clone(), deepl.clone()]), body: Some(G::And(vec![call("p", vec![mixed.clone()]), G::Not(Box::new(call("q", vec![deepv.clone()])))])) });
+        rs.push(Clause { head: cplx("fact", vec![deep, deepl, list(ints)]), body: None });
+    }
+    (ts, gs, rs)
 }
 
 // ------------------------------------------------------------------ C20
